@@ -65,20 +65,26 @@ typedef struct { DString * buf; int step; bool header, footer, trans, accept, re
 #define FMT_EXT ".html"
 #endif
 static rec g_r[NF]; static int g_cur = -1; static char g_name[NF][8]; static char g_orig[NF][8]; static FILE * g_out[NF]; static FILE * g_stdout_obj; static int g_scans, g_stdin; static bool g_stdin_mode;
+static bool g_concat; static DString * g_work; static char g_content[4];
+static rec * cur(void);
+/* which DString the steps must work on: the text scan_file/stdin_buffer returned; in the concatenation mode (files without -b) the
+ * buffer main() builds from the files -- one and the same object through all steps */
+static bool src_ok(rec * r, DString * s) { if (!g_concat) { return s == r->buf; } if (!g_work) { g_work = s; } return s != NULL && s == g_work; }
 static rec * cur(void) { ASSERT(g_cur >= 0 && g_cur < NF, "ghost: a file is being processed"); return &g_r[g_cur]; }
 static DString * mkds(size_t n) { DString * d = malloc(sizeof(DString)); d->str = malloc(n + 1); d->str[n] = 0; d->currentStringLength = n; d->currentStringBufferSize = n + 1; return d; }
 DString * scan_file(const char * fname) {
 	g_cur++; ASSERT(g_cur < NF && fname == g_file_names[g_cur], "(S) the files are read in command-line order, each once");
-	g_scans++; g_r[g_cur].buf = mkds(3); return g_r[g_cur].buf;
+	g_scans++; g_r[g_cur].buf = mkds(3); for (int i = 0; i < 3; i++) { char c; ASSUME(c != 0); g_r[g_cur].buf->str[i] = c; g_content[i] = c; } return g_r[g_cur].buf;
 }
 DString * stdin_buffer(void) { g_cur++; g_stdin++; ASSERT(g_cur == 0, "stdin is read once"); g_r[0].buf = mkds(3); return g_r[0].buf; }
-void mmd_prepend_mmd_header(DString * s) { rec * r = cur(); ASSERT(s == r->buf && r->step == 0, "(S) header first"); r->header = true; r->step = 1; }
-void mmd_append_mmd_footer(DString * s) { rec * r = cur(); ASSERT(s == r->buf && r->step == 1, "(S) then footer"); r->footer = true; r->step = 2; }
-void mmd_transclude_source(DString * s, const char * search, const char * path, short format, void * a, void * b) { rec * r = cur(); ASSERT(s == r->buf && r->step <= 2 && !r->trans, "(S) then transclusion, once"); r->trans = true; r->trans_folder = search; r->step = 3; }
-void mmd_critic_markup_accept(DString * s) { rec * r = cur(); ASSERT(s == r->buf && r->step <= 3 && !r->conv, "(S) CriticMarkup accept before the conversion"); r->accept = true; r->step = 4; }
-void mmd_critic_markup_reject(DString * s) { rec * r = cur(); ASSERT(s == r->buf && r->step <= 4 && !r->conv, "(S) CriticMarkup reject before the conversion"); r->reject = true; r->step = 5; }
+void mmd_prepend_mmd_header(DString * s) { rec * r = cur(); ASSERT(src_ok(r, s) && r->step == 0, "(S) header first"); r->header = true; r->step = 1; }
+void mmd_append_mmd_footer(DString * s) { rec * r = cur(); ASSERT(src_ok(r, s) && r->step == 1, "(S) then footer"); r->footer = true; r->step = 2; }
+void mmd_transclude_source(DString * s, const char * search, const char * path, short format, void * a, void * b) { rec * r = cur(); ASSERT(src_ok(r, s) && r->step <= 2 && !r->trans, "(S) then transclusion, once"); r->trans = true; r->trans_folder = search; r->step = 3; }
+void mmd_critic_markup_accept(DString * s) { rec * r = cur(); ASSERT(src_ok(r, s) && r->step <= 3 && !r->conv, "(S) CriticMarkup accept before the conversion"); r->accept = true; r->step = 4; }
+void mmd_critic_markup_reject(DString * s) { rec * r = cur(); ASSERT(src_ok(r, s) && r->step <= 4 && !r->conv, "(S) CriticMarkup reject before the conversion"); r->reject = true; r->step = 5; }
 DString * mmd_d_string_convert_to_data(DString * source, unsigned long extensions, short format, short language, const char * directory) {
-	rec * r = cur(); ASSERT(source == r->buf && !r->conv, "(S) the text read for this file is converted, once");
+	rec * r = cur(); ASSERT(src_ok(r, source) && !r->conv, "(S) the text read for this file is converted, once");
+	if (g_concat) { ASSERT(source->currentStringLength == 3 && source->str[0] == g_content[0] && source->str[1] == g_content[1] && source->str[2] == g_content[2], "(S) the text converted is the file's text (concatenation of one file)"); }
 	r->conv = true; r->ext = extensions; r->format = format; r->lang = language; r->folder = directory;
 	IN(size_t, n); ASSUME(n <= 4); r->result = mkds(n); return r->result;
 }
@@ -107,8 +113,9 @@ static void setup_options(bool batch) {
 	g_o.count = 0; g_stdout_obj = (FILE *)ALLOC(8); stdout = g_stdout_obj;
 	for (int i = 0; i < NF; i++) { g_out[i] = (FILE *)ALLOC(8); }
 }
-static bool g_fmt_given;
+static bool g_fmt_given, g_o_given;
 static void fix_controls(bool batch) {
+	g_o.count = g_o_given ? 1 : 0; if (g_o_given) { g_o_name[0] = "o.x"; }         /* main() has just stored the default "-": the parser overwrites it when -o is given */
 	for (int i = 0; i < 4; i++) { if (i < g_nstr && strcmp(g_str_name[i], "to") == 0) { g_str[i].count = g_fmt_given ? 1 : 0; g_sval[i][0] = g_sval[0][0]; } }
 	/* main() has now created the option records: switch off the ones that end the run early, fix the mode */
 	for (int i = 0; i < NLIT; i++) {
@@ -171,5 +178,24 @@ void h_cli_stream(void) {
 	ASSERT(!r->trans, "(S) no transclusion without a file name");
 	ASSERT(r->folder == NULL, "(F) no folder for stdin");
 	ASSERT(r->opened == NULL, "(O) output goes to stdout when -o is not given");
+	REACH();
+}
+/* one input file, concatenation mode, output to -o FILE */
+void h_cli_onefile(void) {
+	g_batch = false; g_stdin_mode = true; g_concat = true; setup_options(false);
+	{ const char a[8] = "a/x.md"; for (int i = 0; i < 8; i++) { g_name[0][i] = a[i]; g_orig[0][i] = a[i]; } }
+	g_file_names[0] = g_name[0]; g_files.count = 1;
+	g_o_name[0] = "o.x"; g_o_given = true;
+	char * argv[1] = { "mmd" };
+	int rc = main(1, argv);
+	unsigned long want = spec_extensions();
+	ASSERT(rc == 0 && g_scans == 1 && g_stdin == 0, "the file is read");
+	rec * r = &g_r[0];
+	ASSERT(r->conv, "(S) the text is converted");
+	ASSERT(r->ext == want, "(E) the extensions handed to the library are the documented function of the options");
+	ASSERT((r->trans ? 1 : 0) == ((want & EXT_TRANSCLUDE) ? 1 : 0), "(S) with exactly one input file, transclusion runs iff enabled");
+	ASSERT(!r->trans || (r->trans_folder != NULL && strcmp(r->trans_folder, "a") == 0), "(F) transclusion searches the input file's directory");
+	ASSERT(r->folder != NULL && strcmp(r->folder, "a") == 0, "(F) the asset folder is the input file's directory");
+	ASSERT(r->opened != NULL && strcmp(r->opened, "o.x") == 0 && r->writes == 1 && r->write_ok && r->closed == 1, "(O) the result goes to the -o file: opened, written once in full with fwrite, closed");
 	REACH();
 }
